@@ -110,7 +110,7 @@ pub fn run(mode: Mode) -> i32 {
     let (prop, part, rule) = match mode {
         Mode::RoundTrip => ("C01", "main", "every sample set of the enumerated structure space (reference with real splitters; non-reference contigs = reference under every single edit and (for the first configurations / all in thorough) every pair of edits from the menu {SNP in segment i, SNP inside splitter j, each IUPAC code, N-runs 1/3/4/6, whole-contig RC, segment deletion/duplication, insertion, contigs of 1/k-1/k bases}; 2-3 samples with identical, duplicated, absent, extra, reordered contigs; pairwise configurations over k, segment size, min match, threads, pack size, fallback, multi/single-file) plus 60/101/121-sample and 820-orphan scenarios; create via the library drivers, extract every sample via list/get_contig and get_sample; non-trivial = archives whose descriptor table shows a split, RC-stored, reused-id, id-0, raw-group or multi-pack segment"),
         Mode::Format => ("C02", "main", "the same archive space as C01; every archive is parsed and fully decoded by the independent reader O1 (own constants, no ragc imports) and compared with the input; addressing/structure invariants evaluated on every archive"),
-        Mode::Ranges => ("C07", "main", "the same archive space as C01; for every contig: all (start,end) pairs with 0<=start,end<=len+2 for contigs shorter than 60 and for the contigs (<= L bases) of the first three samples, otherwise all pairs with both ends within k+1 (quick: 2) of a segment junction, of 0 or of len, plus start>=end, start>=len, end=usize::MAX; oracle = slice of get_contig; get_contig_length = full length"),
+        Mode::Ranges => ("C07", "main", "the same archive space as C01; for every contig: all (start,end) pairs with 0<=start,end<=len+2 for contigs shorter than 60 and for the contigs of at most 140 bases of the first three samples, otherwise all pairs with both ends within 4 (quick: 1) of a segment junction, of 0 or of len, or exactly k away from one, plus start>=end, start>=len, end=usize::MAX; oracle = slice of get_contig; get_contig_length = full length"),
         Mode::Table => ("C18", if cfg!(debug_assertions) { "table_chk" } else { "table_seq" }, "C01 space executed under one build profile; emits case -> (archive sha256, extraction sha256 | error kind)"),
     };
     let rep = Report::new(prop, part, "exploration", rule);
@@ -324,7 +324,7 @@ fn ranges_on_archive(rep: &Report, path: &str, case: &Case, thorough: bool) -> u
     let Ok(mut d) = open(path) else { return 0 };
     let det = |extra: serde_json::Value| json!({"case": case.id, "edits": case.edits, "config": case.cfg.json(), "info": extra});
     let k = case.cfg.k;
-    let small = if thorough { 400 } else { 140 };
+    let small = 140;
     let mut q = 0u64;
     let r = guarded(|| {
         for (si, s) in d.list_samples().into_iter().enumerate() {
@@ -350,7 +350,7 @@ fn ranges_on_archive(rep: &Report, path: &str, case: &Case, thorough: bool) -> u
                         pos += if i == 0 { sd.raw_length as usize } else { (sd.raw_length as usize).saturating_sub(k) };
                         junctions.push(pos);
                     }
-                    let w = if thorough { k + 1 } else { 1 };
+                    let w = if thorough { 4 } else { 1 };
                     for j in junctions {
                         for x in j.saturating_sub(w)..=j + w { pts.push(x); }
                         pts.push(j.saturating_sub(k));
